@@ -145,3 +145,6 @@ extend("C07", "large-count family (surplus of parentheses / operands / operators
 extend("C14", "structured orders also at 254..258 (thorough 2..260, 510..514) operands", "The structured application orders run at the chain lengths around 256 (thorough: 512) as well, with as many distinct priorities as operators.")
 extend("C15", "257 (thorough 255..258, 300) distinct variables", "Many-variable texts pass the byte boundary of the variable index.")
 extend("C09", "out-of-range aliases modulo 256 and 2^16", "The out-of-range index catalogue contains 255..257, 65535, 65536 and the aliases 256 + i, 65536 + i of the valid indices.")
+extend("C04", "families with 63..66 and 255..258 distinct variables", "Arity and binding are also checked on texts with 63..66 and 255..258 distinct variables (all slice lengths 0..n+2).")
+extend("C12", "five large texts (300 operands, 257 calls, 130 nesting levels)", "A third model parses, prints, converts and serialises five large texts.")
+extend("C13", "table with 261 operators", "Family n reads binary, unary and constant names that sit behind 257 other operators in the table.")
